@@ -181,7 +181,9 @@ fn run_set<S: PS>(ctx: &Ctx) -> Acc {
             for mode in MODES {
                 let cl = *g.pick(&gen::CTX_LENGTHS);
                 let lens = gen::message_lengths(cl, false);
-                let ml = if rep == 0 && mode == Mode::Pure && ji == 5 && thorough { 1 << 20 } else { *g.pick(&lens) };
+                // the first jobs sign one long message (just past 4 KiB .. 1 MiB) in every mode
+                let long = gen::long_message_lengths(&mut g);
+                let ml = if rep == 0 && ji < long.len() { long[ji] } else { *g.pick(&lens) };
                 let m = gen::message(&mut g, ml);
                 let cx = gen::context(&mut g, cl);
                 let rnd = gen::rnd_class(&mut g);
